@@ -5,7 +5,7 @@
 (*   pos 1   "Mesh"   kind, p (integer coordinates, common scale), t          *)
 (*   [pos 2  "Basis"  elem, family, tolclass, ncomp, ndofs, edofs, y, vdof]   *)
 (*   then    "Find"   pts, res, err [, model = 1: compare with FindImpl]       *)
-(*           "Probe"  op, pts, cells, rows, vals, phis, ref, err [, pscols, psvals] *)
+(*           "Probe"  op, pts, cells, rows, vals, phis, ref, ferr (finder), err [, pscols, psvals] *)
 EXTENDS Locate
 
 Batch  == JsonDeserialize(IOEnv.TRACE_FILE)
@@ -52,7 +52,9 @@ Eval(e, s) ==
          ELSE LET ct == ContainingAll(s.m, e.pts)
                   imp == IF e.model = 1 THEN FindImpl(s.m, e.pts) ELSE <<>>
               IN [cl |-> [FindWellFormed |-> TRUE,
-                          FindOK |-> FindOK(s.m, e.pts, e.res, e.err, ct),
+                          FoundCellContainsPoint |-> FoundCellContainsPoint(s.m, e.pts, e.res, e.err, ct),
+                          PointsOfTheDomainAreFound |-> PointsOfTheDomainAreFound(s.m, e.pts, e.err, ct),
+                          BoundaryPointsAreFound |-> BoundaryPointsAreFound(e.pts, e.err, ct),
                           RaisesOutside |-> RaisesOutside(s.m, e.pts, e.err, ct)],
                   info |-> (IF e.err = "" THEN {"Info_Found"} ELSE {"Info_Raised"})
                            \cup (IF \E n \in DOMAIN ct : Cardinality(ct[n]) >= 2 THEN {"Info_PointOnSharedFacet"} ELSE {})
@@ -68,13 +70,18 @@ Eval(e, s) ==
     [] e.a = "Probe" ->
          IF ~s.ok \/ s.b = <<>> THEN [cl |-> <<>>, info |-> {"Info_Skipped"}, st |-> s]
          ELSE LET ct == ContainingAll(s.m, e.pts) IN
-           IF e.err # ""
-           THEN \* probing may raise only because some point is outside the mesh
-                [cl |-> [NoUnexpectedError |-> \E n \in DOMAIN ct : ct[n] = {}], info |-> {"Info_ProbeRaised"}, st |-> s]
+           IF e.ferr # ""
+           THEN \* the element finder raised: probing raises for the same reason; judged like a Find event
+                [cl |-> [PointsOfTheDomainAreFound |-> PointsOfTheDomainAreFound(s.m, e.pts, e.ferr, ct),
+                         BoundaryPointsAreFound |-> BoundaryPointsAreFound(e.pts, e.ferr, ct)],
+                 info |-> {"Info_ProbeFinderRaised"}, st |-> s]
+           ELSE IF e.err # ""
+           THEN \* all points were located: probing must not raise
+                [cl |-> [NoUnexpectedError |-> FALSE], info |-> {"Info_ProbeRaised"}, st |-> s]
            ELSE IF ~ProbeWellFormed(s.m, s.b, e) THEN [cl |-> [ProbeWellFormed |-> FALSE], info |-> {}, st |-> s]
            ELSE LET pv == PointValues(s.m, s.b, e, ct) IN
                 [cl |-> [ProbeWellFormed |-> TRUE, NoUnexpectedError |-> TRUE,
-                         FindOK |-> FindOK(s.m, e.pts, e.cells, "", ct),
+                         FoundCellContainsPoint |-> FoundCellContainsPoint(s.m, e.pts, e.cells, "", ct),
                          ProbeRows |-> ProbeRows(s.m, s.b, e, ct),
                          LocalExpansion |-> LocalExpansion(s.m, s.b, e),
                          SamePointSameValue |-> SamePointSameValue(s.b, pv, s.seen)]
